@@ -52,7 +52,7 @@ func c06Alphabet() (syms []c06Sym) {
 		c06Sym{s: srule{false, c06Pat, []string{"domain=src.org", "badfilter"}}},
 		c06Sym{s: srule{true, c06Pat, []string{"stealth"}}},
 	)
-	for _, x := range []string{"urlblock", "genericblock", "document", "elemhide", "genericblock,jsinject", "urlblock,important", "genericblock,important", "urlblock,badfilter", "genericblock,badfilter"} {
+	for _, x := range []string{"urlblock", "genericblock", "document", "elemhide", "genericblock,jsinject", "urlblock,important", "genericblock,important", "urlblock,badfilter", "genericblock,badfilter", "stealth,urlblock", "stealth"} {
 		syms = append(syms, c06Sym{s: srule{true, c06SrcPat, strings.Split(x, ",")}, source: true})
 	}
 	return syms
@@ -164,7 +164,8 @@ func c06Special(r *rules.NetworkRule) string {
 		return "rewrite"
 	case r.IsOptionEnabled(rules.OptionBadfilter):
 		return "badfilter"
-	case r.IsOptionEnabled(rules.OptionStealth):
+	case r.IsOptionEnabled(rules.OptionStealth) && !r.IsOptionEnabled(rules.OptionUrlblock) && !r.IsOptionEnabled(rules.OptionGenericblock):
+		// a document-level exception may carry $stealth as well; a pure $stealth rule is special-purpose
 		return "stealth"
 	}
 	return ""
